@@ -26,7 +26,7 @@ CLAIMED["C11"] = ("lockset analysis (E3) + predicated path enumeration with sele
          "Static, all-paths for coalesce.Queue: guarded-by of queue/coalesced, closed-check before insert, non-blocking wake-up token after a successful insert into a channel of capacity>=1, complete blocking wait set in Next with ctx.Err on cancellation, closed reported only when empty (evaluated at Len 0 and 1), representation-level order/count rules for insert/next (increment by 1, append at tail with 0, dequeue head, count before delete, advance by one, key forgotten on every path). Necessary conditions of order/dup-count/no-loss; conservation over all interleavings is not decided.",
          "go/ssa model; sync.Mutex and channel semantics per the Go memory model; representation rules are tied to the slice+map representation (a different representation fails with UNRESOLVED-ANCHOR rather than passing)",
          "DESIGN.md §3 C11")
-CLAIMED["C16"] = ("lockset analysis with foreign locks (E3) + predicated path enumeration (E4) + who-may-call (E5b) + boundary evaluation of the reference-count test",
+CLAIMED["C16"] = ("lockset analysis with foreign locks (E3) + predicated path enumeration (E4) + who-may-call (E5b) + boundary evaluation of the reference-count test; resource pairing of every in-module holder (release function returned, called or deferred before the next request), key agreement of cache / id / remove on resolved path values, ownership of the dial result",
          "Static, all-paths for connection.Manager: conns/ref only under Manager.mu, dial results published before ready and read after it, join-or-create in one critical section with exactly one go dial, every counted reference waits for ready or is undone, failure path removes+publishes under the lock, once-guarded release with decrement by 1 and remove iff ref test true at 0/false at 1, ClientConn.Close only in remove, remove only from dial/release body and always forgets the entry, manager.monitor defers the release before subscribe. Necessary conditions of correct reference counting for every interleaving; holders outside the module are not covered.",
          "go/ssa model; sync.Once/Mutex/channel-close semantics assumed; grpc.ClientConn not analysed",
          "DESIGN.md §3 C16")
@@ -36,7 +36,7 @@ CLAIMED["C13"] = ("typestate by predicated path enumeration with loop unrolling 
          "go/ssa model; loop of handleUpdates unrolled to 2 (quick) / 3 (thorough) iterations; context, channel and mutex semantics assumed; grpc stream behaviour not analysed",
          "DESIGN.md §3 C13")
 
-CLAIMED["C17"] = ("predicated path enumeration (E4) with ordering atoms for the revision compare and per-iteration boolean atoms for the diff classification; write-effect scan (E5c)",
+CLAIMED["C17"] = ("predicated path enumeration (E4) with ordering atoms for the revision compare and per-iteration boolean atoms for the diff classification; write-effect scan (E5c); lock audit of Config.configuration (gate, diff and commit in one critical section)",
          "Static, all-paths for target.Config: load gate (no handler/diff/store on any refused load; diff then store inside one critical section on accepted loads), strict revision order table evaluated at <,=,>, the per-target classification table of handleDiffs (delete / none / exactly one Update carrying the new configuration's request / one Add per leftover) evaluated per loop iteration, read-only diff, cloned Current, nil-guarded handlers. These are the single-step necessary conditions of 'replaying handler calls yields the current configuration'; the convergence over histories is not decided.",
          "go/ssa model; proto.Equal/proto.Clone semantics assumed; loops unrolled to 2 iterations",
          "DESIGN.md §3 C17")
@@ -70,12 +70,12 @@ CLAIMED["C14"] = ("predicated path enumeration (E4) with loop unrolling, type-le
          "go/ssa model; package-level metadata registries are shared by design (assumption); loops unrolled",
          "DESIGN.md §3 C14")
 
-CLAIMED["C15"] = ("predicated path enumeration of counter events per outcome (E4), sibling/contradiction rules for the metadata test and the LeafCount pairing (E7), lockset without propagation for post-construction Target fields and with foreign locks for latency/metadata (E3), loop analysis of window.slide",
+CLAIMED["C15"] = ("predicated path enumeration of counter events per outcome (E4), sibling/contradiction rules for the metadata test and the LeafCount pairing (E7), lockset without propagation for post-construction Target fields and with foreign locks for latency/metadata (E3), loop analysis of window.slide; decision tables of the latency bookkeeping (order atoms over sample / batch extrema, field-flow shapes of slot / window updates) and of the metadata store operations",
          "Static, all-paths: exactly-one-category per outcome of gnmiUpdate, one UpdateCount per announced leaf, EmptyCount for empty notifications only; LeafCount/AddCount and LeafCount/DelCount pairing with the same non-metadata restriction on both sides (found and now guards the fixed -1 leaf count); latest timestamp only moves forward and is recorded exactly when something was accepted; all 'is metadata' decisions on element 0 of the joined path (the remaining deviation in Target.GnmiUpdate is KNOWN-FINDING F11); every post-construction Target field under one lock or atomic (found the fixed sync-flag race and unlocked ts reads); latency/window/metadata state only under their mutex; slide examines every slot. The numerical conservation laws and latency bounds quantify over runtime values and are NOT decided.",
          "go/ssa model; sync/atomic types are self-synchronising; Target.client exempt by the SetClient-before-updates contract (C01.wire); loops unrolled",
          "DESIGN.md §3 C15")
 
-CLAIMED["C12"] = ("panic-site audit (E6): path-sensitive guard facts (length, non-nil, dynamic type, index bound) from branch decisions, stores and constructor summaries; predicate-helper summaries; call-site preconditions propagated to a fixpoint; reachability from the remote-input entry points incl. closures and goroutines",
+CLAIMED["C12"] = ("panic-site audit (E6): path-sensitive guard facts (length, non-nil, dynamic type, index bound) from branch decisions, stores and constructor summaries; predicate-helper summaries; call-site preconditions propagated to a fixpoint; reachability from the remote-input entry points incl. closures and goroutines; lock audit of the server statistics maps (an unsynchronised map access is a fatal runtime error)",
          "Static, all-paths over ~160 functions reachable from the remote-input entry points: every slice/string index, constant slicing, unchecked type assertion, dereference of a pointer that may be nil by provenance and explicit panic is guarded on every path, safe by construction or covered by a precondition established at every call site; stored notifications always carry an update (tree invariant); rejected updates never write. The audit found 20 unguarded sites on the pinned tree (all reproduced as crashes, now repaired by fix commits) and passes on the repaired tree; any new unguarded site is a violation. Panics in third-party code, resource exhaustion, non-constant slice bounds, typed-nil interfaces and races are NOT covered.",
          "go/ssa model; wire-format assumptions (repeated elements and set oneof payloads non-nil); generated getters nil-safe; expression identity by normalised printing (a location is assumed unchanged between guard and use unless a store to it is seen on the path)",
          "DESIGN.md §3 C12")
@@ -100,7 +100,7 @@ CLAIMED["C09"] = ("map-order lint incl. no-callback-in-map-range (E8), predicate
          "go/ssa model; map and slice semantics assumed; loops unrolled",
          "DESIGN.md §3 C09")
 
-CLAIMED["C01"] = ("predicated path enumeration for registration/stamping/wiring order (E4), bound-method and closure provenance for callback wiring (E1), data-dependence slice for the CLI request text (E7 sibling rule), oneof / notification-type exhaustiveness (E7), shared relay clauses (queue key forgotten on dequeue, strict delete condition)",
+CLAIMED["C01"] = ("predicated path enumeration for registration/stamping/wiring order (E4), bound-method and closure provenance for callback wiring (E1), data-dependence slice for the CLI request text (E7 sibling rule), oneof / notification-type exhaustiveness (E7), shared relay clauses (queue key forgotten on dequeue, strict delete condition); string-range byte-index audit (cuts of a ranged string at index +/- constant need an ASCII fact)",
          "Static, all-paths necessary conditions of the end-to-end relay: every managed target is first registered with the cache under the same name; the manager's callbacks are the one cache's methods and its Update closure stamps the target into a non-nil prefix on every path before Cache.GnmiUpdate; the cache's feed is the registered Subscribe server's Update, installed before serving and before targets start; all four CLI execute* functions parse the text returned by protoRequestFromFlags; every SubscribeResponse kind / client notification type has an arm, updates and deletes are all forwarded, Update->Tree.Add, Delete->Tree.Delete. The rules found the never-registered-targets and ignored -proto_file defects (now fixed) and guard them. End-to-end equality of the client view with the target state is NOT decided.",
          "go/ssa model of the two cmd packages and the client decode path; grpc and flag parsing not analysed",
          "DESIGN.md §3 C01")
